@@ -63,6 +63,7 @@ type upReply struct {
 	Body    []byte
 	Flush   bool // flush after the header and half of the body: the reply goes out chunked
 	NoWrite bool
+	Trailer [][2]string // trailer fields: announced in front of the status line, sent behind the body
 }
 
 type c07env struct {
@@ -168,6 +169,13 @@ func getEnv() *c07env {
 			for _, h := range rep.Hdr {
 				w.Header().Add(h[0], h[1])
 			}
+			announced := map[string]bool{}
+			for _, tr := range rep.Trailer {
+				if k := http.CanonicalHeaderKey(tr[0]); !announced[k] {
+					announced[k] = true
+					w.Header().Add("Trailer", k)
+				}
+			}
 			w.WriteHeader(rep.Status)
 			if rep.NoWrite {
 				return
@@ -182,9 +190,12 @@ func getEnv() *c07env {
 					f.Flush()
 				}
 				w.Write(rep.Body[half:])
-				return
+			} else {
+				w.Write(rep.Body)
 			}
-			w.Write(rep.Body)
+			for _, tr := range rep.Trailer {
+				w.Header().Add(tr[0], tr[1])
+			}
 		}))
 		e.upURL, _ = url.Parse(e.up.URL)
 		e.upAddr = e.upURL.Host
@@ -307,6 +318,7 @@ type clientResp struct {
 	Body    string   `json:"body,omitempty"` // only when short (no-route page)
 	TE      []string `json:"-"`
 	IHdr    [][]kv   `json:"-"` // headers of the interim responses
+	Trailer []kv     `json:"-"` // trailer fields behind the body
 	Raw     []byte   `json:"-"` // the body as read
 }
 
@@ -360,6 +372,7 @@ func (e *c07env) roundTrip(method string, raw []byte, keepBody bool) (*clientRes
 		out.BodyLen = len(body)
 		out.BodySHA = sha(body)
 		out.TE = resp.TransferEncoding
+		out.Trailer = hdrList(resp.Trailer, e.upAddr)
 		out.Raw = body
 		if keepBody && len(body) <= 4096 {
 			out.Body = toL1(body)
